@@ -47,7 +47,7 @@ fn catalogue() -> Vec<u16>
 	CAT.with(|c| c.clone())
 }
 
-fn render(e: &penne::alpha::Error, files: &[(String, String)], color: bool, ascii: bool) -> Result<Vec<u8>, String>
+pub fn render(e: &penne::alpha::Error, files: &[(String, String)], color: bool, ascii: bool) -> Result<Vec<u8>, String>
 {
 	let charset = if ascii { ariadne::CharSet::Ascii } else { ariadne::CharSet::Unicode };
 	let cfg = ariadne::Config::default()
@@ -472,6 +472,12 @@ fn expression_fault(c: &mut Choices) -> Case
 		"fn bad_as() -> bool\n{\n\tvar x: i32 = 1;\n\treturn: x as bool\n}",
 		"fn bad_sizeof() -> usize\n{\n\treturn: |:[]u8|\n}",
 		"fn bad_deref() -> i32\n{\n\tvar x: i32 = 1;\n\tvar p: &i32 = &x;\n\tvar q: &&i32 = &&p;\n\treturn: &q\n}",
+		// escapes in literals earlier on the line of the fault: the span of
+		// what follows must not drift
+		"fn bad_after_unicode_escape()\n{\n\tprint!(\"caf\\u{e9} \\u{20ac}\", undefined_total);\n}",
+		"fn bad_after_byte_escapes()\n{\n\tprint!(\"a\\x41\\\"b\\n\\t\\0\", undefined_total);\n}",
+		"fn bad_after_char_escapes()\n{\n\tprint!('\\n', '\\x7f', '\\'', undefined_total);\n}",
+		"fn bad_after_multibyte_text()\n{\n\tprint!(\"\u{20ac}\u{20ac}\u{20ac}\u{20ac}\", undefined_total); // \u{e9}\n}",
 	];
 	let mut prog = crate::progen::generate(c, crate::progen::Profile::exec());
 	let text = *c.pick(FAULTS);
@@ -567,7 +573,7 @@ impl Check for C13
 	}
 	fn rule(&self) -> String
 	{
-		"rejected (and lint-carrying) inputs from: byte/token-mutated corpus files, generated programs with 1-3 token edits in plain or random layout (CRLF, multi-byte comments), token soup, a single offending character planted before a random token of a generated program with multi-byte comments / CRLF before it, one of 13 ill-formed declarations planted into a generated program printed in a random layout with multi-byte comments, one of 18 functions with a fault inside an expression (bit casts, lengths, addresses, strings, indices, members, calls, array literals, shifts, casts) planted the same way, generated programs with one type-breaking edit (C07's editor) in a random layout, module sets with imports, correctly split multi-file programs, and 18 fixed edge files (empty, whitespace-only, fault on the last line / at EOF without newline, CRLF with multi-byte text). Oracle, for every diagnostic: (1) code in the published catalogue (docs/errors.md headings parsed live + 8 frozen codes); (2) primary location names a compiled file, 0 <= start <= end <= chars, and the line containing `start` is the reported line; (3) for undefined/duplicate-name variants the text at the span equals the name, for a planted character the span covers it; (4) build_report + Report::write succeeds (a panic of the renderer counts as failure) for {colour on/off} x {unicode, ascii}, no ESC byte without colour, ASCII-only output for ASCII sources with ascii arrows; (5) on a sample (every 10th/20th case, every module set, every split program, every edge file) the case is compiled again in two fresh processes: verdict, ordered codes, locations, rendered text and all IR text must be identical. Non-trivial: diagnostic from the scoper or later, or on line >= 2 after a non-ASCII character or CR; distinct by source.".into()
+		"rejected (and lint-carrying) inputs from: byte/token-mutated corpus files, generated programs with 1-3 token edits in plain or random layout (CRLF, multi-byte comments), token soup, a single offending character planted before a random token of a generated program with multi-byte comments / CRLF before it, one of 13 ill-formed declarations planted into a generated program printed in a random layout with multi-byte comments, one of 22 functions with a fault inside an expression (bit casts, lengths, addresses, strings, indices, members, calls, array literals, shifts, casts) planted the same way, generated programs with one type-breaking edit (C07's editor) in a random layout, module sets with imports, correctly split multi-file programs, and 18 fixed edge files (empty, whitespace-only, fault on the last line / at EOF without newline, CRLF with multi-byte text). Oracle, for every diagnostic: (1) code in the published catalogue (docs/errors.md headings parsed live + 8 frozen codes); (2) primary location names a compiled file, 0 <= start <= end <= chars, and the line containing `start` is the reported line; (3) for undefined/duplicate-name variants the text at the span equals the name, for a planted character the span covers it; (4) build_report + Report::write succeeds (a panic of the renderer counts as failure) for {colour on/off} x {unicode, ascii}, no ESC byte without colour, ASCII-only output for ASCII sources with ascii arrows; (5) on a sample (every 10th/20th case, every module set, every split program, every edge file) the case is compiled again in two fresh processes: verdict, ordered codes, locations, rendered text and all IR text must be identical. Non-trivial: diagnostic from the scoper or later, or on line >= 2 after a non-ASCII character or CR; distinct by source.".into()
 	}
 	fn assumptions(&self) -> Vec<String>
 	{
